@@ -198,6 +198,20 @@ func eval1(t *Term, model map[string]uint64, memo map[*Term]evalRes) (uint64, bo
 		return a[0], true
 	case OSignExt:
 		return uint64(sext(a[0], aw)) & m, true
+	case OBvSMulNoOvfl, OBvSMulNoUdfl:
+		x, y := sext(a[0], aw), sext(a[1], aw)
+		hi, lo := bits.Mul64(uint64(abs64(x)), uint64(abs64(y)))
+		neg := (x < 0) != (y < 0)
+		if t.Op == OBvSMulNoOvfl {
+			if neg {
+				return 1, true
+			}
+			return b2u(hi == 0 && lo <= uint64(1)<<uint(aw-1)-1), true
+		}
+		if !neg {
+			return 1, true
+		}
+		return b2u(hi == 0 && lo <= uint64(1)<<uint(aw-1)), true
 	case OFpOfBV:
 		return a[0], true
 	case OFpAdd, OFpSub, OFpMul, OFpDiv:
